@@ -1354,13 +1354,13 @@ namespace jsoncons {
         {
             if (other.storage_kind() == json_storage_kind::const_json_ref)
             {
-                auto alloc = cast<long_string_storage>().get_allocator();
+                auto alloc = get_allocator();
                 destroy();
                 uninitialized_copy_a(other.cast<const_json_ref_storage>().value(), alloc);
             }
             else if (other.storage_kind() == json_storage_kind::json_ref)
             {
-                auto alloc = cast<long_string_storage>().get_allocator();
+                auto alloc = get_allocator();
                 destroy();
                 uninitialized_copy_a(other.cast<json_ref_storage>().value(), alloc);
             }
